@@ -835,7 +835,8 @@ class BosonicBackend(BaseBosonic):
         if modes is None:
             modes = self.get_modes()
 
-        mode_names = ["q[{}]".format(i) for i in modes]
+        # the data below are arranged in ascending mode order, and so must be the labels
+        mode_names = ["q[{}]".format(i) for i in sorted(modes)]
 
         # This next check is a hack if the user has deleted all the modes
         if len(modes) == 0:
